@@ -7,6 +7,7 @@ package main
 import (
 	"encoding/json"
 	"fmt"
+	"go/ast"
 	"go/constant"
 	"go/types"
 	"os"
@@ -111,5 +112,122 @@ func jsTablesChecker(cr *checkRun) {
 			prev = v
 		}
 	}
+	jsGroupingScan(prog, jsP, add)
 	tableVerdict(cr, loadKnownFindings(), obls, "jstables")
+}
+
+// jsGroupingScan: generator-decided dataflow fact over the source of package js. Wherever a binary expression node is
+// constructed as js.BinaryExpr{OP, L, R} and an operand is produced by groupExpr(e, P) - directly or through a local
+// defined once from such a call - P must be binaryLeftPrecMap[OP] for the left and binaryRightPrecMap[OP] for the
+// right operand, with the SAME operator: grouping with another operator's level drops parentheses the new operator needs.
+// Operands that are not produced by groupExpr are not judged.
+func jsGroupingScan(prog *Program, jsP string, add func(string, bool, string)) {
+	pk := prog.Pkgs[jsP]
+	if pk == nil {
+		add("js.grouping", false, "package not loaded")
+		return
+	}
+	n := 0
+	for _, f := range pk.Syntax {
+		fn := prog.Fset.Position(f.Pos()).Filename
+		if strings.HasSuffix(fn, "_test.go") || strings.HasSuffix(fn, "_verif.go") {
+			continue
+		}
+		for _, d := range f.Decls {
+			fd, ok := d.(*ast.FuncDecl)
+			if !ok || fd.Body == nil {
+				continue
+			}
+			// single definitions of locals from calls
+			defs := map[types.Object]*ast.CallExpr{}
+			multi := map[types.Object]bool{}
+			ast.Inspect(fd.Body, func(nd ast.Node) bool {
+				as, ok := nd.(*ast.AssignStmt)
+				if !ok || len(as.Lhs) != len(as.Rhs) {
+					return true
+				}
+				for i, l := range as.Lhs {
+					id, ok := l.(*ast.Ident)
+					if !ok {
+						continue
+					}
+					o := pk.TypesInfo.ObjectOf(id)
+					if o == nil {
+						continue
+					}
+					if _, seen := defs[o]; seen || multi[o] {
+						multi[o] = true
+						delete(defs, o)
+						continue
+					}
+					if c, ok := as.Rhs[i].(*ast.CallExpr); ok {
+						defs[o] = c
+					} else {
+						multi[o] = true
+					}
+				}
+				return true
+			})
+			ast.Inspect(fd.Body, func(nd ast.Node) bool {
+				cl, ok := nd.(*ast.CompositeLit)
+				if !ok {
+					return true
+				}
+				t := pk.TypesInfo.TypeOf(cl)
+				nt, ok := t.(*types.Named)
+				if !ok || nt.Obj().Name() != "BinaryExpr" || nt.Obj().Pkg() == nil || nt.Obj().Pkg().Path() != "github.com/tdewolff/parse/v2/js" {
+					return true
+				}
+				var opE, lE, rE ast.Expr
+				for i, el := range cl.Elts {
+					if kv, ok := el.(*ast.KeyValueExpr); ok {
+						switch nodeText(prog.Fset, kv.Key) {
+						case "Op":
+							opE = kv.Value
+						case "X":
+							lE = kv.Value
+						case "Y":
+							rE = kv.Value
+						}
+					} else {
+						switch i {
+						case 0:
+							opE = el
+						case 1:
+							lE = el
+						case 2:
+							rE = el
+						}
+					}
+				}
+				if opE == nil {
+					return true
+				}
+				op := nodeText(prog.Fset, opE)
+				pos := prog.Fset.Position(cl.Pos())
+				where := fmt.Sprintf("%s:%s", filepath.Base(pos.Filename), fd.Name.Name)
+				check := func(side string, e ast.Expr, wantMap string) {
+					if e == nil {
+						return
+					}
+					call, _ := e.(*ast.CallExpr)
+					if id, ok := e.(*ast.Ident); ok {
+						call = defs[pk.TypesInfo.ObjectOf(id)]
+					}
+					if call == nil || nodeText(prog.Fset, call.Fun) != "groupExpr" || len(call.Args) != 2 {
+						return
+					}
+					n++
+					got := strings.ReplaceAll(nodeText(prog.Fset, call.Args[1]), " ", "")
+					want := wantMap + "[" + op + "]"
+					add(fmt.Sprintf("js.grouping[%s:%s %s of %s]", where, side, nodeText(prog.Fset, e), op), got == want,
+						fmt.Sprintf("operand is grouped with %s, the operator being built needs %s", got, want))
+				}
+				check("left", lE, "binaryLeftPrecMap")
+				check("right", rE, "binaryRightPrecMap")
+				return true
+			})
+		}
+	}
+	add("js.grouping#count", n > 0, fmt.Sprintf("%d grouped operands of constructed binary expressions judged", n))
 }
